@@ -20,10 +20,15 @@ use std::collections::BTreeMap;
 
 pub const NP: usize = 7; // 0 owner, 1 collector, 2-3 spenders, 4-5 receivers, 6 stranger
 const STRANGER: usize = 6;
+pub const NTOK: usize = 3; // SAC, interchain token, probe token that refuses receiver p5
+const BLOCKED_RECEIVER: usize = 5;
 
 #[derive(Serialize, Deserialize, Clone, Debug)]
 pub struct SCfg {
     pub initial: i64,
+    /// deploy the service with the owner also being the gas collector
+    #[serde(default)]
+    pub collector_is_owner: bool,
 }
 
 #[derive(Serialize, Deserialize, Clone, Debug, PartialEq, Eq, Hash)]
@@ -64,16 +69,17 @@ impl SOp {
 pub struct SModel {
     pub owner: usize,
     pub former_owner: Option<usize>,
-    pub held: [i128; 2],
-    pub bal: [BTreeMap<usize, i128>; 2],
-    pub paid_in: [i128; 2],
-    pub paid_out: [i128; 2],
+    pub held: [i128; NTOK],
+    pub bal: [BTreeMap<usize, i128>; NTOK],
+    pub paid_in: [i128; NTOK],
+    pub paid_out: [i128; NTOK],
+    pub collector: usize,
 }
 
 pub struct SExec {
     pub sim: Sim,
     pub gas: Address,
-    pub tokens: [Address; 2],
+    pub tokens: [Address; NTOK],
     pub p: Vec<Address>,
     pub m: SModel,
     pub history: Vec<SOp>,
@@ -109,7 +115,7 @@ impl SExec {
         let gas = self.gas.clone();
         match op {
             SOp::PayGas { spender, token, amount, sender, chain, addr, payload, meta, auth, abort } => {
-                let (si, t) = (pi(*spender), *token as usize % 2);
+                let (si, t) = (pi(*spender), *token as usize % NTOK);
                 let a = self.amt(amount, t, si);
                 let tok = Token { address: self.tokens[t].clone(), amount: a };
                 if *spender == 200 {
@@ -132,7 +138,7 @@ impl SExec {
                 self.judge_in(ctx, "pay_gas", args, entries, *abort, ok, expect, t, si, a, exp_ev);
             }
             SOp::AddGas { spender, token, amount, sender, msg_id, auth, abort } => {
-                let (si, t) = (pi(*spender), *token as usize % 2);
+                let (si, t) = (pi(*spender), *token as usize % NTOK);
                 let a = self.amt(amount, t, si);
                 let tok = Token { address: self.tokens[t].clone(), amount: a };
                 let id = msg_id.resolve();
@@ -151,19 +157,20 @@ impl SExec {
             SOp::Collect { receiver, token, amount, auth, abort } | SOp::Refund { receiver, token, amount, auth, abort, .. } => {
                 let is_collect = matches!(op, SOp::Collect { .. });
                 let func: &'static str = if is_collect { "collect_fees" } else { "refund" };
-                let (ri, t) = (pi(*receiver), *token as usize % 2);
+                let (ri, t) = (pi(*receiver), *token as usize % NTOK);
                 let a = self.amt(amount, t, ri);
                 let tok = Token { address: self.tokens[t].clone(), amount: a };
                 let id = if let SOp::Refund { msg_id, .. } = op { msg_id.resolve() } else { String::new() };
                 let args: SVec<Val> = if is_collect { (self.p[ri].clone(), tok.clone()).into_val(&env) } else { (SStr::from_str(&env, &id), self.p[ri].clone(), tok.clone()).into_val(&env) };
                 let alt: SVec<Val> = if is_collect { (self.p[ri].clone(), Token { address: self.tokens[t].clone(), amount: a + 1 }).into_val(&env) } else { (SStr::from_str(&env, &id), self.p[(ri + 1) % NP].clone(), tok.clone()).into_val(&env) };
-                let c = AuthCtx { right: 1, former: None, other_role: self.m.owner, counterparty: ri, owner: self.m.owner, stranger: STRANGER };
+                let col = self.m.collector;
+                let c = AuthCtx { right: col, former: None, other_role: if self.m.owner != col { self.m.owner } else { STRANGER }, counterparty: ri, owner: if self.m.owner != col { self.m.owner } else { STRANGER }, stranger: STRANGER };
                 if auth.is_fault() {
                     ctx.count(&format!("F7.{}.{}", func, auth.name()));
                 }
                 let (entries, ok) = match resolve_auth(*auth, &c) {
                     None => (vec![], false),
-                    Some((w, other)) => (vec![AuthEntry { who: self.p[w].clone(), root: AuthNode::new(&gas, func, if other { alt } else { args.clone() }) }], w == 1 && !other),
+                    Some((w, other)) => (vec![AuthEntry { who: self.p[w].clone(), root: AuthNode::new(&gas, func, if other { alt } else { args.clone() }) }], w == col && !other),
                 };
                 let held = self.m.held[t];
                 // refund of amount 0: the statement does not say
@@ -171,6 +178,9 @@ impl SExec {
                     Err("negative-amount")
                 } else if a == 0 && is_collect {
                     Err("non-positive-amount")
+                } else if a > 0 && t == 2 && ri == BLOCKED_RECEIVER && a <= held {
+                    ctx.count("F9.token_refuses_receiver");
+                    Err("token-refuses-this-receiver")
                 } else if a > held {
                     if a == held + 1 { ctx.count("probe.pay_out_one_more_than_held"); }
                     Err("more-than-the-service-holds")
@@ -208,7 +218,7 @@ impl SExec {
                         self.m.paid_out[t] += a;
                         *self.m.bal[t].entry(ri).or_insert(0) += a;
                         let exp_ev = if is_collect {
-                            Ev { contract: addr_bytes(&gas), topics: vec![sym("gas_collected"), saddr(&self.p[1]), token_sc(&self.tokens[t], a)], data: ScVal::Void }
+                            Ev { contract: addr_bytes(&gas), topics: vec![sym("gas_collected"), saddr(&self.p[col]), token_sc(&self.tokens[t], a)], data: ScVal::Void }
                         } else {
                             Ev { contract: addr_bytes(&gas), topics: vec![sym("gas_refunded"), sstr(&id), saddr(&self.p[ri]), token_sc(&self.tokens[t], a)], data: ScVal::Void }
                         };
@@ -222,7 +232,7 @@ impl SExec {
                 let o = self.m.owner;
                 let args: SVec<Val> = (self.p[ti].clone(),).into_val(&env);
                 let alt: SVec<Val> = (self.p[(ti + 1) % NP].clone(),).into_val(&env);
-                let c = AuthCtx { right: o, former: self.m.former_owner, other_role: 1, counterparty: ti, owner: o, stranger: STRANGER };
+                let c = AuthCtx { right: o, former: self.m.former_owner, other_role: if self.m.collector != o { self.m.collector } else { STRANGER }, counterparty: ti, owner: o, stranger: STRANGER };
                 if auth.is_fault() {
                     ctx.count(&format!("F7.transfer_ownership.{}", auth.name()));
                 }
@@ -278,7 +288,7 @@ impl SExec {
         if auth.is_fault() {
             ctx.count(&format!("F7.{}.{}", func, auth.name()));
         }
-        let c = AuthCtx { right: si, former: None, other_role: 1, counterparty: 1, owner: self.m.owner, stranger: STRANGER };
+        let c = AuthCtx { right: si, former: None, other_role: self.m.collector, counterparty: self.m.collector, owner: self.m.owner, stranger: STRANGER };
         match resolve_auth(auth, &c) {
             None => (vec![], false),
             Some((w, other)) => {
@@ -328,7 +338,7 @@ impl SExec {
 
     pub fn invariants(&mut self, ctx: &mut Ctx) {
         let env = self.sim.env.clone();
-        for t in 0..2 {
+        for t in 0..NTOK {
             let tok = self.tokens[t].clone();
             let b = self.sim.query(&tok, "balance", (self.gas.clone(),).into_val(&env));
             let bv = b.val().and_then(|v| i128::try_from_val(&env, &v).ok());
@@ -349,7 +359,14 @@ impl SExec {
         }
         let o = self.sim.query(&self.gas.clone(), "owner", SVec::new(&env));
         let ov = o.val().and_then(|v| Address::try_from_val(&env, &v).ok());
-        ctx.check(ov.as_ref() == Some(&self.p[self.m.owner]), &["C06"], "invariant/owner-differs", || "owner() differs".into());
+        if !ctx.check(ov.as_ref() == Some(&self.p[self.m.owner]), &["C06"], "invariant/owner-differs", || "owner() differs".into()) {
+            return;
+        }
+        let c = self.sim.query(&self.gas.clone(), "gas_collector", SVec::new(&env));
+        let cv = c.val().and_then(|v| Address::try_from_val(&env, &v).ok());
+        ctx.check(cv.as_ref() == Some(&self.p[self.m.collector]), &["C06"], "invariant/gas-collector-differs", || {
+            "gas_collector() is no longer the address named at construction (the role has no transfer entry point)".into()
+        });
     }
 }
 
@@ -369,7 +386,7 @@ impl World for WorldS {
         let f_auth = p.faults && rng.chance(3, 4);
         let f_abort = p.faults && rng.chance(1, 2);
         let f_dup = p.faults && rng.chance(3, 4);
-        let cfg = SCfg { initial: *rng.pick(&[0i64, 10, 1000, 1_000_000]) };
+        let cfg = SCfg { initial: *rng.pick(&[0i64, 10, 1000, 1_000_000]), collector_is_owner: rng.chance(1, 4) };
         let w: [u32; 6] = match p.focus {
             "C06" => [8, 4, 20, 20, 25, if f_dup { 8 } else { 0 }],
             "C07" => [35, 30, 6, 6, 2, if f_dup { 8 } else { 0 }],
@@ -384,16 +401,16 @@ impl World for WorldS {
             let outamt = |rng: &mut Rng| match rng.weighted(&[2, 2, 8, 4, 4]) { 0 => SAmt::Zero, 1 => SAmt::Neg, 2 => SAmt::Lit(rng.range(1, 300) as i64), 3 => SAmt::Held, _ => SAmt::HeldPlus1 };
             let op = match rng.weighted(&w) {
                 0 => SOp::PayGas {
-                    spender: if rng.chance(1, 15) { 200 } else { rng.range(2, 3) as u8 }, token: rng.below(2) as u8, amount: inamt(rng), sender: rng.below(NP as u64) as u8,
+                    spender: if rng.chance(1, 15) { 200 } else { rng.range(2, 3) as u8 }, token: rng.below(3) as u8, amount: inamt(rng), sender: rng.below(NP as u64) as u8,
                     chain: StrSpec::gen(rng), addr: StrSpec::gen(rng), payload: PayloadSpec::gen(rng, false), meta: rng.below(4) as u8,
                     auth: if fault { *rng.pick(&[AuthVar::Counterparty, AuthVar::Owner, AuthVar::Stranger, AuthVar::Nobody, AuthVar::RightOtherArgs, AuthVar::RootOnly]) } else { AuthVar::Right }, abort,
                 },
                 1 => SOp::AddGas {
-                    spender: rng.range(2, 3) as u8, token: rng.below(2) as u8, amount: inamt(rng), sender: rng.below(NP as u64) as u8, msg_id: StrSpec::gen(rng),
+                    spender: rng.range(2, 3) as u8, token: rng.below(3) as u8, amount: inamt(rng), sender: rng.below(NP as u64) as u8, msg_id: StrSpec::gen(rng),
                     auth: if fault { *rng.pick(&[AuthVar::Counterparty, AuthVar::Owner, AuthVar::Stranger, AuthVar::Nobody, AuthVar::RightOtherArgs, AuthVar::RootOnly]) } else { AuthVar::Right }, abort,
                 },
-                2 => SOp::Collect { receiver: rng.range(4, 5) as u8, token: rng.below(2) as u8, amount: outamt(rng), auth: if fault { *rng.pick(&[AuthVar::Counterparty, AuthVar::Owner, AuthVar::Stranger, AuthVar::Nobody, AuthVar::RightOtherArgs]) } else { AuthVar::Right }, abort },
-                3 => SOp::Refund { receiver: rng.range(2, 5) as u8, token: rng.below(2) as u8, amount: outamt(rng), msg_id: StrSpec::gen(rng), auth: if fault { *rng.pick(&[AuthVar::Counterparty, AuthVar::Owner, AuthVar::Stranger, AuthVar::Nobody, AuthVar::RightOtherArgs]) } else { AuthVar::Right }, abort },
+                2 => SOp::Collect { receiver: rng.range(4, 5) as u8, token: rng.below(3) as u8, amount: outamt(rng), auth: if fault { *rng.pick(&[AuthVar::Counterparty, AuthVar::Owner, AuthVar::Stranger, AuthVar::Nobody, AuthVar::RightOtherArgs]) } else { AuthVar::Right }, abort },
+                3 => SOp::Refund { receiver: rng.range(2, 5) as u8, token: rng.below(3) as u8, amount: outamt(rng), msg_id: StrSpec::gen(rng), auth: if fault { *rng.pick(&[AuthVar::Counterparty, AuthVar::Owner, AuthVar::Stranger, AuthVar::Nobody, AuthVar::RightOtherArgs]) } else { AuthVar::Right }, abort },
                 4 => SOp::TransferOwnership { to: rng.below(NP as u64) as u8, auth: if fault || rng.chance(1, 3) { *rng.pick(&[AuthVar::Former, AuthVar::OtherRole, AuthVar::Counterparty, AuthVar::Stranger, AuthVar::Nobody, AuthVar::RightOtherArgs]) } else { AuthVar::Right }, abort },
                 _ => SOp::Resubmit { k: rng.below(64) as u16 },
             };
@@ -407,21 +424,26 @@ impl World for WorldS {
         let env = sim.env.clone();
         let p: Vec<Address> = (0..NP).map(|_| Address::generate(&env)).collect();
         sim.setup_all_auths();
-        let gas = env.register(AxelarGasService, (&p[0], &p[1]));
+        let collector = if cfg.collector_is_owner { 0 } else { 1 };
+        let gas = env.register(AxelarGasService, (&p[0], &p[collector]));
+        let probe = env.register(crate::harness::probe_token::ProbeToken, (SStr::from_str(&env, "Probe"), SStr::from_str(&env, "PRB"), 7u32));
+        let _: () = env.invoke_contract(&probe, &soroban_sdk::Symbol::new(&env, "set_blocked"), (p[BLOCKED_RECEIVER].clone(), true).into_val(&env));
         let sac = env.register_stellar_asset_contract_v2(Address::generate(&env)).address();
         let it = env.register(
             InterchainToken,
             (p[0].clone(), None::<Address>, BytesN::from_array(&env, &[3u8; 32]), TokenMetadata { decimal: 6, name: SStr::from_str(&env, "Gas"), symbol: SStr::from_str(&env, "GAS") }),
         );
-        let mut m = SModel { owner: 0, ..Default::default() };
+        let mut m = SModel { owner: 0, collector, ..Default::default() };
         for u in 2..4usize {
             soroban_sdk::token::StellarAssetClient::new(&env, &sac).mint(&p[u], &(cfg.initial as i128));
             soroban_sdk::token::StellarAssetClient::new(&env, &it).mint(&p[u], &(cfg.initial as i128 * 2));
             m.bal[0].insert(u, cfg.initial as i128);
             m.bal[1].insert(u, cfg.initial as i128 * 2);
+            let _: () = env.invoke_contract(&probe, &soroban_sdk::Symbol::new(&env, "give"), (p[u].clone(), cfg.initial as i128).into_val(&env));
+            m.bal[2].insert(u, cfg.initial as i128);
         }
         sim.end_setup();
-        let mut ex = SExec { sim, gas, tokens: [sac, it], p, m, history: vec![] };
+        let mut ex = SExec { sim, gas, tokens: [sac, it, probe], p, m, history: vec![] };
         ex.invariants(ctx);
         for (i, op) in ops.iter().enumerate() {
             if ctx.stopped() {
@@ -454,7 +476,7 @@ impl World for WorldS {
         // quiescent tail: the collector can drain exactly what is held
         if !ctx.stopped() {
             ctx.step = ops.len();
-            for t in 0..2u8 {
+            for t in 0..NTOK as u8 {
                 if ex.m.held[t as usize] > 0 && !ctx.stopped() {
                     ex.run_op(ctx, &SOp::Collect { receiver: 4, token: t, amount: SAmt::Held, auth: AuthVar::Right, abort: None });
                 }
